@@ -67,7 +67,9 @@ Fixpoint arg_layout_compatible (a_nat b_nat a_eff b_eff : schema) (ev : N) (rp :
           if negb (Bool.eqb ea eb) then LErr else of_vres (verify_compat ta tb rp) LYes
       | _, _ => LErr
       end
-  | a, b => if layout_compatible a b then LYes else LNo
+  (* since fix F16: by reference only if, in addition, each side's type is unchanged between its native and the
+     effective version (Schema's PartialEq: equality of everything the format-2 serialization records) *)
+  | a, b => if layout_compatible a b && bytes_eqb (ser 2 a) (ser 2 a_eff) && bytes_eqb (ser 2 b) (ser 2 b_eff) then LYes else LNo
   end.
 
 (* one entry of the connection template *)
